@@ -133,6 +133,7 @@ func (w *world) exec(op Op) (paired bool) {
 }
 
 type gen struct {
+	cursor      int
 	noOverwrite bool
 	request     int
 	written     map[string]int
@@ -180,6 +181,48 @@ func (g *gen) batch(t *rapid.T, n int, late bool) []hist.PointJ {
 		}
 		ps[i] = p
 	}
+	return ps
+}
+
+// denseBatch writes, for 1-3 series, a run of consecutive timestamps starting at the cursor: with max-rows-per-segment = 8 one flush
+// of it gives chunks of several segments, so that time ranges cover some segments fully and cut others (the stored per-segment
+// statistics are then combined with rows read from the cut segments). Values come from a wide domain so that segment extremes differ.
+func (g *gen) denseBatch(t *rapid.T, nser int) []hist.PointJ {
+	g.request++
+	n := rapid.IntRange(9, min(30, 63-g.cursor)).Draw(t, "rows")
+	var ps []hist.PointJ
+	for s := 0; s < nser; s++ {
+		for k := 0; k < n; k++ {
+			if rapid.IntRange(0, 9).Draw(t, "gap") == 0 {
+				continue
+			}
+			p := hist.PointJ{Mst: mst, Tags: tagSets[s], T: g.cursor + k, Fields: map[string]string{}}
+			mask := 15
+			if rapid.IntRange(0, 2).Draw(t, "partial") == 0 {
+				mask = rapid.IntRange(1, 15).Draw(t, "fieldmask")
+			}
+			for j, fn := range hist.FieldNames {
+				if mask&(1<<j) == 0 {
+					continue
+				}
+				v := rapid.IntRange(-40, 40).Draw(t, "val")
+				switch fn {
+				case "i":
+					p.Fields[fn] = fmt.Sprint(v)
+				case "f":
+					p.Fields[fn] = fmt.Sprintf("%g", float64(v)/4)
+				case "s":
+					p.Fields[fn] = fmt.Sprintf("v%d", v)
+				default:
+					p.Fields[fn] = fmt.Sprint(v%2 == 0)
+				}
+			}
+			g.written[fmt.Sprintf("%v|%d", p.Tags, p.T)] = g.request
+			g.times[p.T] = true
+			ps = append(ps, p)
+		}
+	}
+	g.cursor += n
 	return ps
 }
 
@@ -247,7 +290,10 @@ func (g *gen) query(t *rapid.T) qref.Query {
 	return q
 }
 
-func runCase(t *rapid.T, c *ev.Case) {
+func runCase(t *rapid.T, c *ev.Case)      { runCaseMode(t, c, false) }
+func runDenseCase(t *rapid.T, c *ev.Case) { runCaseMode(t, c, true) }
+
+func runCaseMode(t *rapid.T, c *ev.Case, dense bool) {
 	pt := rapid.SampledFrom([]string{"1", "4"}).Draw(t, "ptnum")
 	w := &world{c: c}
 	w.fail = func(format string, a ...any) {
@@ -336,6 +382,49 @@ func runCase(t *rapid.T, c *ev.Case) {
 			}
 		}
 	}
+	finish := func() {
+		if len(nt) > 0 {
+			keys := make([]string, 0, len(nt))
+			for k := range nt {
+				keys = append(keys, k)
+			}
+			sort.Strings(keys)
+			c.Nontrivial(map[string]any{"shapes": keys, "ops": c.Ops()})
+			var qs []string
+			for _, o := range c.Ops() {
+				if op, ok := o.(Op); ok && op.Kind == "pair" && len(qs) < 6 {
+					qs = append(qs, op.Query.SQL())
+				}
+			}
+			c.Sample(map[string]any{"pair_shapes": keys[:min(len(keys), 6)], "some_aggregates": qs})
+		}
+	}
+	if dense {
+		// chunks of several segments: 2-3 flushed generations of consecutive rows per series, the last one optionally left in the
+		// memtable, optionally late rows and a merge / compaction pass; no (series,time) is written twice
+		g.noOverwrite, w.noOverwrite = true, true
+		nser := rapid.IntRange(1, 3).Draw(t, "nser")
+		ngen := rapid.IntRange(1, 3).Draw(t, "ngen")
+		for gi := 0; gi < ngen && g.cursor < 52; gi++ {
+			w.exec(Op{Kind: "write", Points: g.denseBatch(t, nser)})
+			if gi < ngen-1 || rapid.IntRange(0, 3).Draw(t, "flushlast") > 0 {
+				w.exec(Op{Kind: "flush"})
+				c.Class("multi-segment-chunk-flushed")
+			}
+			pairs(t, rapid.IntRange(4, 9).Draw(t, "qd"))
+		}
+		if rapid.IntRange(0, 2).Draw(t, "late") == 0 {
+			w.exec(Op{Kind: "write", Points: g.batch(t, rapid.IntRange(2, 8).Draw(t, "nlate"), true)})
+			w.exec(Op{Kind: "flush"})
+			pairs(t, rapid.IntRange(3, 6).Draw(t, "ql"))
+		}
+		if rapid.IntRange(0, 2).Draw(t, "reorg") == 0 {
+			w.exec(Op{Kind: "reorg", Cmd: rapid.SampledFrom([]string{"all", "merge", "compact"}).Draw(t, "cmd")})
+			pairs(t, rapid.IntRange(3, 6).Draw(t, "q4"))
+		}
+		finish()
+		return
+	}
 	for i := 0; i < rapid.IntRange(1, 3).Draw(t, "w1"); i++ {
 		w.exec(Op{Kind: "write", Points: g.batch(t, rapid.IntRange(10, 40).Draw(t, "n"), false)})
 	}
@@ -354,23 +443,10 @@ func runCase(t *rapid.T, c *ev.Case) {
 		w.exec(Op{Kind: "reorg", Cmd: rapid.SampledFrom([]string{"all", "merge", "compact"}).Draw(t, "cmd")})
 		pairs(t, rapid.IntRange(2, 6).Draw(t, "q4"))
 	}
-	if len(nt) > 0 {
-		keys := make([]string, 0, len(nt))
-		for k := range nt {
-			keys = append(keys, k)
-		}
-		sort.Strings(keys)
-		c.Nontrivial(map[string]any{"shapes": keys, "ops": c.Ops()})
-		var qs []string
-		for _, o := range c.Ops() {
-			if op, ok := o.(Op); ok && op.Kind == "pair" && len(qs) < 6 {
-				qs = append(qs, op.Query.SQL())
-			}
-		}
-		c.Sample(map[string]any{"pair_shapes": keys[:min(len(keys), 6)], "some_aggregates": qs})
-	}
+	finish()
 }
 
+func TestDenseSegments(t *testing.T)  { rapid.Check(t, ev.Prop(prop, "dense_segments", runDenseCase)) }
 func TestAggregatePairs(t *testing.T) { rapid.Check(t, ev.Prop(prop, "aggregate_pairs", runCase)) }
 
 type violation struct{ msg string }
